@@ -30,8 +30,10 @@
        The proved bound under ALM is therefore per inner solve, times the number of inner solves started after the request.
    NOT EXPRESSIBLE in these models (stated, not claimed): true asynchrony (the request is a function of the event counters, i.e. it
    becomes visible between two modelled events, not in the middle of a user function) and the absence of a data race on the
-   atomic stop flag (relaxed load / seq_cst store).  PANOC-OCP: chain identical by theorem (C19_ocp_chain_same); promptness on its
-   loop model is not proved here. *)
+   atomic stop flag (relaxed load / seq_cst store).
+   ALSO PROVED: PANOC-OCP (module C19_OCP: a line-search pass <= 3 oracle calls; after a poll that sees the request <= 1 further poll and
+   NO oracle call, no Gauss-Newton / L-BFGS call, curr untouched); ALM over ZeroFPR, PANTR, FISTA (C19_alm_*_stop_is_prompt).
+   Validity of Interrupted PANOC-OCP outputs: Properties_PANOCOCP.PANOCOCP_exit holds for every completed run (not repeated here). *)
 From Coq Require Import Reals List ZArith Bool Arith.
 From Alpaqa Require Import Num NumR Vec Prox SolverStatus SolverKernels StopChain StopChainProofs LoopSkeleton SolverKernelsProofs Alm AlmProofs.
 From Alpaqa Require Import Panoc ZeroFpr Pantr FistaLoop AlmCompose AlmComposeProofs AlmPanoc AugLag.
@@ -426,6 +428,169 @@ End C19_ALM.
 Print Assumptions C19_alm_inner_started_after_request.
 Print Assumptions C19_alm_panoc_stop_is_prompt.
 Print Assumptions C19_alm_one_further_solve_if_interrupted.
+
+(* ====================================================================== under ALM: ZeroFPR, PANTR, FISTA as inner solvers (over R) *)
+From Alpaqa Require Import AlmZeroFpr AlmPantr AlmFista StopPromptAlmG.
+Section C19_ALM_OTHERS.
+  Variable Pb : problem (T:=R).
+  Variable prov : fn -> bool.
+  Variable wm_supplied : list R -> list R.
+  Variables (Clb Cub : list (option R)) (l1 : list R).
+  Variable split : nat.
+  Variable has_initial : bool.
+  Variable outer_oot : nat -> bool.
+  Variable AP : alm_params (T:=R).
+  Variables (ls_fuel inner_fuel : nat).
+
+  (* rc: any outer iteration of the run; if a poll pp of ITS inner solve sees the request, that solve is prompt (as stand-alone) and
+     every later inner solve (post) is start-up + one stop check (gcalled1 … zone_check); Interrupted is propagated at once *)
+  Theorem C19_alm_zerofpr_stop_is_prompt : forall (dir : nat -> iterate (T:=R) -> proxit (T:=R) -> option (list R)) stop_req time_up (PP : params (T:=R)),
+    sticky stop_req -> forall outer_fuel nanv Σ0 y0 x0 co,
+    alm_zerofpr Pb prov wm_supplied Clb Cub l1 split dir has_initial stop_req time_up outer_oot PP AP ls_fuel inner_fuel outer_fuel nanv Σ0 y0 x0 = Some co ->
+    forall pre rc post, co_trace co = pre ++ rc :: post ->
+    exists (x : list R) (w : counters) (x' : list R) (lg : result (T:=R)) (w' : counters),
+      called counters (result (T:=R)) (zinner Pb prov wm_supplied Clb Cub l1 dir has_initial stop_req time_up outer_oot PP ls_fuel inner_fuel) x0 cnt0 pre x w /\
+      zinner Pb prov wm_supplied Clb Cub l1 dir has_initial stop_req time_up outer_oot PP ls_fuel inner_fuel
+             w (it_i rc) x (it_y rc) (it_Sigma rc) (it_tol rc) (it_err_in rc) = Some (it_res rc, x', lg, w') /\
+      (ir_status (it_res rc) = Interrupted -> post = [] /\ f_status (co_final co) = Interrupted) /\
+      (forall post1 rc' post2, post = post1 ++ rc' :: post2 -> ir_status (it_res rc') = Interrupted ->
+         post2 = [] /\ f_status (co_final co) = Interrupted) /\
+      forall pp o, lg = Done o ->
+        zinner_polled Pb prov wm_supplied Clb Cub l1 dir has_initial stop_req time_up PP ls_fuel w x (it_y rc) (it_Sigma rc) (it_tol rc) (it_err_in rc) pp ->
+        stop_req (cadd w (pp_cnt pp)) = true ->
+        zprompt_after (with_opts PP (it_tol rc)) pp o /\
+        gcalled1 counters (result (T:=R)) (zinner Pb prov wm_supplied Clb Cub l1 dir has_initial stop_req time_up outer_oot PP ls_fuel inner_fuel)
+                 zone_check w' post.
+  Proof. exact (fun dir stop_req time_up PP => alm_zerofpr_stop_prompt Pb prov wm_supplied Clb Cub l1 split dir has_initial stop_req time_up outer_oot PP AP ls_fuel inner_fuel). Qed.
+
+  Theorem C19_alm_pantr_stop_is_prompt : forall (tr_dir : nat -> iterate (T:=R) -> R -> list R * R) stop_req time_up (TP : trparams (T:=R)),
+    sticky stop_req -> forall outer_fuel nanv Σ0 y0 x0 co,
+    alm_pantr Pb prov wm_supplied Clb Cub l1 split tr_dir has_initial stop_req time_up outer_oot TP AP ls_fuel inner_fuel outer_fuel nanv Σ0 y0 x0 = Some co ->
+    forall pre rc post, co_trace co = pre ++ rc :: post ->
+    exists (x : list R) (w : counters) (x' : list R) (lg : tresult (T:=R)) (w' : counters),
+      called counters (tresult (T:=R)) (tinner Pb prov wm_supplied Clb Cub l1 tr_dir has_initial stop_req time_up outer_oot TP ls_fuel inner_fuel) x0 cnt0 pre x w /\
+      tinner Pb prov wm_supplied Clb Cub l1 tr_dir has_initial stop_req time_up outer_oot TP ls_fuel inner_fuel
+             w (it_i rc) x (it_y rc) (it_Sigma rc) (it_tol rc) (it_err_in rc) = Some (it_res rc, x', lg, w') /\
+      (ir_status (it_res rc) = Interrupted -> post = [] /\ f_status (co_final co) = Interrupted) /\
+      (forall post1 rc' post2, post = post1 ++ rc' :: post2 -> ir_status (it_res rc') = Interrupted ->
+         post2 = [] /\ f_status (co_final co) = Interrupted) /\
+      forall pp o, lg = TDone o ->
+        tinner_polled Pb prov wm_supplied Clb Cub l1 tr_dir has_initial stop_req time_up TP ls_fuel w x (it_y rc) (it_Sigma rc) (it_tol rc) (it_err_in rc) pp ->
+        stop_req (cadd w (pp_cnt pp)) = true ->
+        tprompt_after (tr_with_opts TP (it_tol rc)) pp o /\
+        gcalled1 counters (tresult (T:=R)) (tinner Pb prov wm_supplied Clb Cub l1 tr_dir has_initial stop_req time_up outer_oot TP ls_fuel inner_fuel)
+                 tone_check w' post.
+  Proof. exact (fun tr_dir stop_req time_up TP => alm_pantr_stop_prompt Pb prov wm_supplied Clb Cub l1 split tr_dir has_initial stop_req time_up outer_oot TP AP ls_fuel inner_fuel). Qed.
+
+  Theorem C19_alm_fista_stop_is_prompt : forall stop_req time_up (FP : fparams (T:=R)),
+    fsticky stop_req -> forall outer_fuel nanv Σ0 y0 x0 co,
+    alm_fista Pb prov Clb Cub l1 split stop_req time_up outer_oot FP AP ls_fuel inner_fuel outer_fuel nanv Σ0 y0 x0 = Some co ->
+    forall pre rc post, co_trace co = pre ++ rc :: post ->
+    exists (x : list R) (w : fcounters) (x' : list R) (lg : fresult (T:=R)) (w' : fcounters),
+      called fcounters (fresult (T:=R)) (finner Pb prov Clb Cub l1 stop_req time_up outer_oot FP ls_fuel inner_fuel) x0 fcnt0 pre x w /\
+      finner Pb prov Clb Cub l1 stop_req time_up outer_oot FP ls_fuel inner_fuel
+             w (it_i rc) x (it_y rc) (it_Sigma rc) (it_tol rc) (it_err_in rc) = Some (it_res rc, x', lg, w') /\
+      (ir_status (it_res rc) = Interrupted -> post = [] /\ f_status (co_final co) = Interrupted) /\
+      (forall post1 rc' post2, post = post1 ++ rc' :: post2 -> ir_status (it_res rc') = Interrupted ->
+         post2 = [] /\ f_status (co_final co) = Interrupted) /\
+      forall pp o, lg = FDone o ->
+        finner_polled Pb prov Clb Cub l1 stop_req time_up FP ls_fuel w x (it_y rc) (it_Sigma rc) (it_tol rc) (it_err_in rc) pp ->
+        stop_req (fcadd w (fpp_cnt pp)) = true ->
+        fprompt_after (fwith_opts FP (it_tol rc)) pp o /\
+        gcalled1 fcounters (fresult (T:=R)) (finner Pb prov Clb Cub l1 stop_req time_up outer_oot FP ls_fuel inner_fuel) fone_check w' post.
+  Proof. exact (fun stop_req time_up FP => alm_fista_stop_prompt Pb prov Clb Cub l1 split stop_req time_up outer_oot FP AP ls_fuel inner_fuel). Qed.
+
+  (* what a one-check solve is, for the three solvers *)
+  Theorem C19_one_check_means_others :
+    (forall (lg : result (T:=R)) (r : inner_res (T:=R)), zone_check lg r <->
+       match lg with
+       | Done o => out_iterations o = 0%nat /\ c_polls (out_cnt o) = 1%nat /\ c_dir (out_cnt o) = 0%nat /\ c_apply (out_cnt o) = 0%nat /\
+                   c_cb (out_cnt o) = 1%nat /\ (evals (out_cnt o) <= 4 + s_stepsize_bt (out_stats o))%nat /\
+                   exit_statuses (out_status o) /\ ir_status r = alm_status_of (out_status o) /\ ir_iters r = 0%nat
+       | NotFiniteL _ => ir_status r = NotFinite /\ ir_iters r = 0%nat
+       | OutOfFuel => False
+       end) /\
+    (forall (lg : tresult (T:=R)) (r : inner_res (T:=R)), tone_check lg r <->
+       match lg with
+       | TDone o => to_iterations o = 0%nat /\ c_polls (to_cnt o) = 1%nat /\ c_dir (to_cnt o) = 0%nat /\ c_apply (to_cnt o) = 0%nat /\
+                    c_cb (to_cnt o) = 1%nat /\ (evals (to_cnt o) <= 4 + s_stepsize_bt (to_stats o))%nat /\
+                    exit_statuses (to_status o) /\ ir_status r = alm_status_of (to_status o) /\ ir_iters r = 0%nat
+       | TNotFiniteL _ => ir_status r = NotFinite /\ ir_iters r = 0%nat
+       | TOutOfFuel => False
+       end) /\
+    (forall (lg : fresult (T:=R)) (r : inner_res (T:=R)), fone_check lg r <->
+       match lg with
+       | FDone o => fo_iterations o = 0%nat /\ fc_polls (fo_cnt o) = 1%nat /\ fc_cb (fo_cnt o) = 1%nat /\
+                    (fevals (fo_cnt o) <= 6 + fo_bt o)%nat /\ exit_statuses (fo_status o) /\
+                    ir_status r = alm_status_of (fo_status o) /\ ir_iters r = 0%nat
+       | FNotFiniteL _ => ir_status r = NotFinite /\ ir_iters r = 0%nat
+       | FOutOfFuel => False
+       end).
+  Proof. exact (conj (fun _ _ => conj (fun H => H) (fun H => H)) (conj (fun _ _ => conj (fun H => H) (fun H => H)) (fun _ _ => conj (fun H => H) (fun H => H)))). Qed.
+End C19_ALM_OTHERS.
+Print Assumptions C19_alm_zerofpr_stop_is_prompt.
+Print Assumptions C19_alm_pantr_stop_is_prompt.
+Print Assumptions C19_alm_fista_stop_is_prompt.
+
+(* ====================================================================== PANOC-OCP (PanocOcpLoop.v), every number system *)
+From Alpaqa Require PanocOcpLoop StopPromptOcp.
+Module C19_OCP.
+  Import PanocOcpLoop StopPromptOcp.
+  Section S.
+    Context {T : Type} `{Num T}.
+    Variables X QR DS : Type.
+    Variable fwd : list T -> T * X.
+    Variable sim : list T -> X.
+    Variable bwd : list T -> X -> list T * QR.
+    Variable cvals : X -> list T.
+    Variable gn_step : nat -> list T -> X -> QR -> list bool -> list T -> list T.
+    Variable lb_apply : DS -> list T -> T -> list nat -> bool * list T * DS.
+    Variable lb_update : DS -> list T -> list T -> list T -> list T -> bool * DS.
+    Variable lb_reset : DS -> DS.
+    Variables (N nu : nat).
+    Variables (Ulb Uub : list (option T)).
+    Variables (Dlb Dub : list (option T)).
+    Variable stop_req : counters -> bool.
+    Variable time_up : counters -> bool.
+    Variable P : params (T:=T).
+    Variables (u_in y_in μ errz_in : list T).
+    Variables (X0 : X) (ds0 : DS).
+    Variable ls_fuel : nat.
+    Notation run := (panoc_ocp X QR DS fwd sim bwd cvals gn_step lb_apply lb_update lb_reset N nu Ulb Uub Dlb Dub stop_req time_up P u_in y_in μ errz_in X0 ds0 ls_fuel).
+    Notation Polled := (ocp_polled X QR DS fwd sim bwd cvals gn_step lb_apply lb_update lb_reset N nu Ulb Uub Dlb Dub stop_req time_up P u_in y_in μ errz_in X0 ds0 ls_fuel).
+    Notation Prompt_after := (oprompt_after X cvals Dlb Dub P u_in y_in μ errz_in).
+
+    Theorem C19_ocp_prompt_after_means : forall (pp : opollpt (T:=T) X) (o : outputs (T:=T) X), Prompt_after pp o <->
+      (out_status o <> StBusy /\ exit_statuses (out_status o) /\
+       oadv (opp_cnt pp) (out_cnt o) 2 0 0 1 /\
+       out_iterations o = opp_k pp /\ out_final o = opp_curr pp /\
+       (out_u o, out_y o, out_errz o) = exit_values X cvals Dlb Dub P u_in y_in μ errz_in (out_status o) (opp_curr pp)).
+    Proof. exact (fun _ _ => conj (fun H => H) (fun H => H)). Qed.
+    Theorem C19_oadv_means : forall a b p e d cb, oadv a b p e d cb <->
+      (ocnt_le a b /\ (c_polls b <= c_polls a + p /\ c_fwd b + c_bwd b + c_sim b <= c_fwd a + c_bwd a + c_sim a + e /\
+                       c_gn b + c_lb b <= c_gn a + c_lb a + d /\ c_cb b <= c_cb a + cb)%nat).
+    Proof. exact (fun _ _ _ _ _ _ => conj (fun H => H) (fun H => H)). Qed.
+    (* one pass of the line-search loop: one poll, <= 3 oracle calls (forward + backward of the candidate, forward of û) *)
+    Theorem C19_ocp_linesearch_pass_bound : forall q τi dng (s : ls_state (T:=T) X QR DS),
+      oadv (ls_cnt s) (ls_cnt (ols_res_state X QR DS (ols_pass X QR DS fwd bwd lb_reset N nu Ulb Uub P q τi dng s))) 1 3 0 0 /\
+      c_polls (ls_cnt (ols_res_state X QR DS (ols_pass X QR DS fwd bwd lb_reset N nu Ulb Uub P q τi dng s))) = S (c_polls (ls_cnt s)).
+    Proof. exact (ols_pass_adv X QR DS fwd bwd lb_reset N nu Ulb Uub P). Qed.
+    Theorem C19_ocp_linesearch_stops_at_next_test : forall fuel q τi dng (s : ls_state (T:=T) X QR DS), stop_req (ls_cnt s) = true ->
+      ls_loop X QR DS fwd bwd lb_reset N nu Ulb Uub stop_req P (S fuel) q τi dng s = LsStopped (ols_stopped_at X QR DS s).
+    Proof. exact (ols_stops_now X QR DS fwd bwd lb_reset N nu Ulb Uub stop_req P). Qed.
+    Theorem C19_ocp_stop_is_prompt : osticky stop_req -> forall fuel o, run fuel = Done o ->
+      forall pp, Polled pp -> stop_req (opp_cnt pp) = true -> Prompt_after pp o.
+    Proof. exact (ocp_stop_prompt X QR DS fwd sim bwd cvals gn_step lb_apply lb_update lb_reset N nu Ulb Uub Dlb Dub stop_req time_up P u_in y_in μ errz_in X0 ds0 ls_fuel). Qed.
+    Theorem C19_ocp_stop_before_start : osticky stop_req -> forall fuel o, run fuel = Done o -> stop_req cnt0 = true ->
+      out_status o <> StBusy /\ exit_statuses (out_status o) /\
+      out_iterations o = 0%nat /\ c_polls (out_cnt o) = 1%nat /\ c_gn (out_cnt o) = 0%nat /\ c_lb (out_cnt o) = 0%nat /\
+      c_cb (out_cnt o) = 1%nat /\ (oevals (out_cnt o) <= 5 + s_stepsize_bt (out_stats o))%nat.
+    Proof. exact (ocp_stop_before_start X QR DS fwd sim bwd cvals gn_step lb_apply lb_update lb_reset N nu Ulb Uub Dlb Dub stop_req time_up P u_in y_in μ errz_in X0 ds0 ls_fuel). Qed.
+  End S.
+End C19_OCP.
+Print Assumptions C19_OCP.C19_ocp_linesearch_pass_bound.
+Print Assumptions C19_OCP.C19_ocp_stop_is_prompt.
+Print Assumptions C19_OCP.C19_ocp_stop_before_start.
 
 (* ====================================================================== non-vacuity and the finding, on concrete binary64 runs *)
 From Alpaqa Require Import NumF.
